@@ -2215,3 +2215,151 @@ package exec
 //@     invariant len(args) == #k + 1 && len(args) <= cap(args) && fresh(args)
 //@     invariant forall i Int :: {args[i]} {fargAt($SIG$, i)} 0 <= i && i <= #k ==> args[i] != nil && wf(args[i]) && resok(args[i]) && absv(args[i]) == sem(fargAt($SIG$, i), $FCTX$) && !semerr(fargAt($SIG$, i), $FCTX$)
 //@     decreases fargN($SIG$) - #k
+
+// ---------- Unmarshal (exec/unmarshal.go) against assumed contracts of package reflect (A-REFLECT) ----------
+// Every `requires` below is the documented panic condition of the method; the contracts prove that unmarshal and its
+// helpers never call reflect in a state where it panics, for every target value and every result.  What the fields
+// receive is covered by the bounded stand-in /verif/bounded/unmarshal only.
+
+//@ extern reflect.ValueOf(i) (r)
+//@   pure
+//@   uses reflectspec
+//@   ensures rvValid(r) == (i != nil) && !rvAddr(r) && !rvRO(r)
+//@   ensures i != nil ==> rvType(r) == dynType(i) && rvNil(r) == dynNil(i)
+
+//@ extern reflect.TypeOf(i) (r)
+//@   pure
+//@   uses reflectspec
+//@   ensures i != nil ==> r == dynType(i) && r != nil
+
+//@ extern reflect.Value.IsValid(v) (r)
+//@   pure
+//@   uses reflectspec
+//@   ensures r == rvValid(v)
+
+//@ extern reflect.Value.Type(v) (r)
+//@   pure
+//@   uses reflectspec
+//@   requires rvValid(v)
+//@   ensures r == rvType(v) && r != nil
+
+//@ extern reflect.Value.Kind(v) (r)
+//@   pure
+//@   uses reflectspec
+//@   ensures r == rvKind(v)
+
+//@ extern reflect.Type.Kind(t) (r)
+//@   pure
+//@   uses reflectspec
+//@   requires t != nil
+//@   ensures r == rtKind(t)
+
+//@ extern reflect.Type.Elem(t) (r)
+//@   pure
+//@   uses reflectspec
+//@   requires t != nil && (rtKind(t) == 17 || rtKind(t) == 18 || rtKind(t) == 21 || rtKind(t) == 22 || rtKind(t) == 23)
+//@   ensures r == rtElem(t) && r != nil
+
+//@ extern reflect.Value.IsNil(v) (r)
+//@   pure
+//@   uses reflectspec
+//@   requires rvValid(v) && nilable(rvKind(v))
+//@   ensures r == rvNil(v)
+
+//@ extern reflect.Value.Elem(v) (r)
+//@   pure
+//@   uses reflectspec
+//@   requires rvValid(v) && (rvKind(v) == 22 || rvKind(v) == 20)
+//@   ensures rvNil(v) ==> !rvValid(r)
+//@   ensures !rvNil(v) && rvKind(v) == 22 ==> rvValid(r) && rvType(r) == rtElem(rvType(v)) && rvAddr(r) && rvRO(r) == rvRO(v)
+
+//@ extern reflect.Value.CanAddr(v) (r)
+//@   pure
+//@   uses reflectspec
+//@   ensures r == rvAddr(v)
+
+//@ extern reflect.Value.CanSet(v) (r)
+//@   pure
+//@   uses reflectspec
+//@   ensures r == rvSet(v)
+
+//@ extern reflect.Value.Addr(v) (r)
+//@   pure
+//@   uses reflectspec
+//@   requires rvAddr(v)
+//@   ensures rvValid(r) && rtKind(rvType(r)) == 22 && rtElem(rvType(r)) == rvType(v) && !rvNil(r) && rvRO(r) == rvRO(v) && !rvAddr(r)
+
+//@ extern reflect.Value.NumField(v) (r)
+//@   pure
+//@   uses reflectspec
+//@   requires rvValid(v) && rvKind(v) == 25
+//@   ensures r == rtNumField(rvType(v)) && r >= 0
+
+//@ extern reflect.Type.Field(t, i) (r)
+//@   pure
+//@   uses reflectspec
+//@   requires t != nil && rtKind(t) == 25 && 0 <= i && i < rtNumField(t)
+
+//@ extern reflect.Value.Field(v, i) (r)
+//@   pure
+//@   uses reflectspec
+//@   requires rvValid(v) && rvKind(v) == 25 && 0 <= i && i < rtNumField(rvType(v))
+//@   ensures rvValid(r) && rvType(r) == rtFieldType(rvType(v), i) && rvAddr(r) == rvAddr(v) && rvRO(r) == (rvRO(v) || !rtFieldExported(rvType(v), i))
+
+//@ extern reflect.StructTag.Get(tag, key) (r)
+//@   pure
+
+//@ extern reflect.Value.Interface(v) (r)
+//@   pure
+//@   uses reflectspec
+//@   requires rvValid(v) && !rvRO(v)
+//@   ensures r != nil && dynType(r) == rvType(v) && dynNil(r) == rvNil(v)
+
+//@ extern reflect.New(t) (r)
+//@   uses reflectspec
+//@   requires t != nil
+//@   ensures rvValid(r) && rtKind(rvType(r)) == 22 && rtElem(rvType(r)) == t && !rvNil(r) && !rvRO(r) && !rvAddr(r)
+
+//@ extern reflect.Zero(t) (r)
+//@   pure
+//@   uses reflectspec
+//@   requires t != nil
+//@   ensures rvValid(r) && rvType(r) == t && !rvRO(r)
+
+//@ extern reflect.Value.Set(v, x) ()
+//@   uses reflectspec
+//@   requires rvSet(v) && rvValid(x) && !rvRO(x) && assignable(rvType(x), rvType(v))
+
+//@ extern reflect.Type.AssignableTo(t, u) (r)
+//@   pure
+//@   uses reflectspec
+//@   requires t != nil && u != nil
+//@   ensures r == assignable(t, u)
+
+//@ extern reflect.Append(s, x) (r)
+//@   uses reflectspec
+//@   requires rvValid(s) && rvKind(s) == 23 && len(x) == 1 && rvValid(x[0]) && !rvRO(x[0]) && assignable(rvType(x[0]), rtElem(rvType(s)))
+//@   ensures rvValid(r) && rvType(r) == rvType(s) && !rvRO(r)
+
+//@ func unmarshalStruct(result, val, settings) (err)
+//@   property C19 C15
+//@   trusted
+//@   uses reflectspec
+//@   requires rvValid(val) && rvKind(val) == 22 && !rvNil(val) && rtKind(rtElem(rvType(val))) == 25
+
+//@ func unmarshalSlice(result, val, settings) (err)
+//@   property C19 C15
+//@   trusted
+//@   uses reflectspec
+//@   requires rvValid(val) && rvKind(val) == 23 && !rvRO(val)
+
+//@ func unmarshal(result, value, settings) (err)
+//@   property C19 C15
+//@   uses reflectspec
+//@   loop 0
+//@     invariant rvValid(val) && typ != nil && rvType(val) == typ && !rvRO(val)
+//@     decreases rtDepth(typ)
+
+//@ func Unmarshal(result, value, settings) (err)
+//@   property C19 C15
+//@   uses reflectspec
